@@ -388,6 +388,16 @@ def builders(model):
             ast.Mult, inst(I, 'PartialDerivative', D(), 0),
             inst(I, 'Laplacian', D())), inst(I, 'PartialDerivative', D(),
                                              1)))
+    # sums whose left summand returns (a view of) its input out of place
+    B['expr:RealPart[R] + IdentityOperator[R]'] = (
+        lambda I, S: I.binop(ast.Add, inst(I, 'RealPart', S['R']),
+                             inst(I, 'IdentityOperator', S['R'])))
+    B['expr:RealPart[C] + ImagPart[C]'] = (
+        lambda I, S: I.binop(ast.Add, inst(I, 'RealPart', S['C']),
+                             inst(I, 'ImagPart', S['C'])))
+    B['expr:ImagPart[C] - RealPart[C]'] = (
+        lambda I, S: I.binop(ast.Sub, inst(I, 'ImagPart', S['C']),
+                             inst(I, 'RealPart', S['C'])))
     # arithmetic on top of concrete leaves (dunders of Operator)
     B['expr:(s*RealPart + ImagPart)[C]'] = (
         lambda I, S: I.binop(ast.Add, I.binop(ast.Mult, Rat.var('s'), inst(
